@@ -200,6 +200,24 @@ Theorem c04_ifeq_with_plain_arguments :
 Proof. exact ifeq_plain. Qed.
 Print Assumptions c04_ifeq_with_plain_arguments.
 
+(* #if with calls in its branches: the chosen branch is expanded where the #if stands (same expansion path plus the
+   function's frames, so loop detection sees the same templates), every call in it replaced by its result; the branch not
+   chosen has no influence.  The fuel threshold does not depend on the place. *)
+Theorem c04_if_with_calls_in_its_branches :
+  forall pfnames lib opts cond more,
+    if_calls_ok pfnames lib cond more = true -> o_parserfns opts = true -> o_tfn opts = [] -> o_pfn opts = [] ->
+    exists F, forall stk ea fuel, (length stk < 98)%nat -> forallb (fresh_items stk) more = true -> (F <= fuel)%nat ->
+      expand_T pfnames lib opts fuel stk ea ((if_head ++ cond)%list :: more) = Some (if_calls_result lib cond more).
+Proof. exact if_calls. Qed.
+Print Assumptions c04_if_with_calls_in_its_branches.
+
+Example c04_if_calls_example :     (* Template:i = "[{{{1}}}]": {{#if: x | a{{i|p}} | {{i|q}} }} gives "a[p]", with a blank condition "[q]" *)
+  let lib := [mktpl [73] [Ch 91; A [[Ch 49]]; Ch 93] false] in
+  let more := [[Ch 97; T [[Ch 105]; [Ch 112]]]; [Ch 32; T [[Ch 105]; [Ch 113]]; Ch 32]] in
+  if_calls_ok [] lib [Ch 120] more = true /\
+  codes (if_calls_result lib [Ch 120] more) = [97; 91; 112; 93] /\ codes (if_calls_result lib [Ch 32] more) = [91; 113; 93].
+Proof. vm_compute. repeat split. Qed.
+
 (* #switch with plain keyed cases: the value of the first case whose key equals the first argument (as numbers when both
    are numbers, else as text; both trimmed), else the value of the last "#default = v" case, else empty *)
 Theorem c04_switch_with_plain_keyed_cases :
